@@ -279,6 +279,56 @@ async fn flood_cell(addr: SocketAddr, set: Arc<CertSet>, topic: String, frames: 
     }
 }
 
+/// Well-formed frames that are not messages, sent by a (raw) publisher: the server relays them
+/// and the consuming client must survive each of them (ending its stream is fine, panicking is not).
+async fn odd_frame_cell(addr: SocketAddr, set: Arc<CertSet>, topic: String, kind: String) -> Result<String, Fail> {
+    let class = format!("non-message-frame:{kind}");
+    let setup = |what: &str, e: String| fail("setup", what, format!("{what}: {e}"));
+    let client = net::default_client(addr, &set).await.map_err(|e| setup("connect", e.to_string()))?;
+    let tn = TopicName::try_from(topic.as_str()).unwrap();
+    let raw = RawConn::connect(addr, &set.ca, Some(&set.client)).await.map_err(|e| setup("raw connect", e.to_string()))?;
+    let (mut publ, first) = raw.register(Frame::RegisterPublisher(PublisherPayload { topic: tn.clone(), retention_policy: 0, operations: vec![] })).await.map_err(|e| setup("publisher", e.to_string()))?;
+    if first != Some(Frame::Ok) {
+        return Err(setup("publisher", format!("{first:?}")));
+    }
+    let mut sub = client.subscriber(&topic).with_decoder(StringCodec).open().await.map_err(|e| setup("subscriber", e.to_string()))?;
+    let task = tokio::spawn(async move {
+        let mut seen = Vec::new();
+        loop {
+            match tokio::time::timeout(Duration::from_millis(1500), sub.next()).await {
+                Ok(Some(Ok(s))) => seen.push(s),
+                // (a subscriber whose stream was ended and that has no retry budget keeps answering
+                // with the too-many-retries error: the first error ends the observation)
+                Ok(Some(Err(_))) => {
+                    seen.push("<error>".into());
+                    break;
+                }
+                Ok(None) | Err(_) => break,
+            }
+        }
+        seen
+    });
+    tokio::time::sleep(Duration::from_millis(150)).await;
+    let odd = match kind.as_str() {
+        "Ok" => Frame::Ok,
+        "Error" => Frame::Error(ErrorPayload { code: 1, message: Bytes::from_static(b"odd") }),
+        "RegisterSubscriber" => Frame::RegisterSubscriber(SubscriberPayload { topic: tn.clone(), retention_policy: 0, operations: vec![] }),
+        "RegisterPublisher" => Frame::RegisterPublisher(PublisherPayload { topic: tn.clone(), retention_policy: 0, operations: vec![] }),
+        "RegisterReplier" => Frame::RegisterReplier(ReplierPayload { topic: tn.clone() }),
+        _ => Frame::RegisterRequestor(RequestorPayload { topic: tn.clone() }),
+    };
+    let _ = publ.send(Frame::Message(MessagePayload { headers: None, message: Bytes::from_static(b"one") })).await;
+    let _ = publ.send(odd).await;
+    let _ = publ.send(Frame::Message(MessagePayload { headers: None, message: Bytes::from_static(b"two") })).await;
+    match tokio::time::timeout(Duration::from_secs(20), task).await {
+        Ok(Ok(seen)) if seen.first().map(|s| s.as_str()) == Some("one") => Ok("survived".into()),
+        Ok(Ok(seen)) => Err(fail("setup", &class, format!("the subscriber saw {seen:?}"))),
+        Ok(Err(e)) if e.is_panic() => Err(fail("subscriber-panicked", &class, format!("a well-formed {kind} frame relayed by the server made the task polling the real Subscriber panic: {e}"))),
+        Ok(Err(e)) => Err(setup("task", e.to_string())),
+        Err(_) => Err(fail("subscriber-hung", &class, "the real Subscriber neither yielded nor ended within 20 s".into())),
+    }
+}
+
 fn cells() -> Vec<Value> {
     let mut v = Vec::new();
     let mut id = 0;
@@ -289,6 +339,10 @@ fn cells() -> Vec<Value> {
                 id += 1;
             }
         }
+    }
+    for kind in ["Ok", "Error", "RegisterSubscriber", "RegisterPublisher", "RegisterReplier", "RegisterRequestor"] {
+        v.push(json!({"cell": id, "family": "odd-frame", "kind": kind}));
+        id += 1;
     }
     for (kind, frames) in [("empty-batches", 100_000usize), ("mostly-empty-batches", 100_000)] {
         v.push(json!({"cell": id, "family": "flood", "kind": kind, "frames": frames}));
@@ -306,6 +360,9 @@ pub async fn run(tier: &str, replaying: bool) -> ! {
         let set = set.clone();
         async move {
             let topic = format!("/c06ns/cell{}", c["cell"]);
+            if c["family"].as_str() == Some("odd-frame") {
+                return (true, odd_frame_cell(addr, set, topic, c["kind"].as_str().unwrap().to_string()).await);
+            }
             if c["family"].as_str() == Some("flood") {
                 return (true, flood_cell(addr, set, topic, c["frames"].as_u64().unwrap() as usize, c["kind"].as_str().unwrap().to_string()).await);
             }
@@ -317,7 +374,7 @@ pub async fn run(tier: &str, replaying: bool) -> ! {
     finish(
         rep,
         outs,
-        "every cell of decoder {String, Bytes, Bincode struct} x decompression {none, gzip, zlib, zstd, lz4, brotli} x frame kind {BatchMessage, Message}: a raw publisher sends 14 hostile payload classes (incl. a well-formed batch of zero messages and one of empty messages) (absurd counts and lengths in both byte orders, truncated batches, invalid UTF-8, compressed-looking garbage) followed by a valid batch through the real server to a real Subscriber; its task must not panic or hang, and a well-behaved round trip on the same topic must still work; plus flood cells: 100 000 consecutive well-formed batch frames holding no message (and the same with an occasional one-message batch), fed without per-frame flush so that they are readable together, to a real Subscriber running in a process of its own, which must survive and yield the item that follows",
+        "every cell of decoder {String, Bytes, Bincode struct} x decompression {none, gzip, zlib, zstd, lz4, brotli} x frame kind {BatchMessage, Message}: a raw publisher sends 14 hostile payload classes (incl. a well-formed batch of zero messages and one of empty messages) (absurd counts and lengths in both byte orders, truncated batches, invalid UTF-8, compressed-looking garbage) followed by a valid batch through the real server to a real Subscriber; its task must not panic or hang, and a well-behaved round trip on the same topic must still work; plus well-formed frames of the six non-message kinds relayed to a real Subscriber between two messages (it may end, it may not panic); plus flood cells: 100 000 consecutive well-formed batch frames holding no message (and the same with an occasional one-message batch), fed without per-frame flush so that they are readable together, to a real Subscriber running in a process of its own, which must survive and yield the item that follows",
         "end-to-end representative of each crashing class; the exhaustive input enumeration is engine W's",
         json!({"payload_classes": payloads().iter().map(|p| p.0).collect::<Vec<_>>()}),
         replaying,
